@@ -16,8 +16,32 @@ def pairOfJson (j : Json) : Except String (String × String) := do
   | [a, b] => pure (← strOfJson a, ← strOfJson b)
   | _ => throw "pair"
 
+def outcomeToJson : Outcome → Json
+  | .completed => Json.str "completed"
+  | .notEnough => Json.str "ModelNotEnoughSubunitsException"
+  | .storageError => Json.str "Exception"
+
+def cfgOfJson (j : Json) : Except String Cfg := do
+    let so ← listOf strOfJson (← field j "save_output")
+    pure {
+      saveResults := Gen.C18.flag_results so, saveData := Gen.C18.flag_data so, saveConfig := Gen.C18.flag_config so,
+      saveConf := Gen.C18.flag_conformalization so,
+      isLocal := ← boolOfJson (← field j "is_local"), gaussian := ← boolOfJson (← field j "gaussian"),
+      gatePass := ← boolOfJson (← field j "gate_pass"),
+      root := ← strOfJson (← field j "root"), eid := ← strOfJson (← field j "eid"), office := ← strOfJson (← field j "office"),
+      utype := ← strOfJson (← field j "utype"), estimands := ← listOf strOfJson (← field j "estimands"),
+      alphas := ← listOf strOfJson (← field j "alphas"), levels := ← listOf pairOfJson (← field j "levels"),
+      unitTable := ← boolOfJson (← field j "unit_table") }
+
 def run (op : String) (j : Json) : Except String Json := do
   match op with
+  | "persist.fault" =>
+    -- the call against a storage that does not acknowledge its `nack`-th put
+    let c ← cfgOfJson j
+    let k ← natOfJson (← field j "nack")
+    let r := runWithFault c (some k)
+    pure (Json.mkObj [("attempted", listToJson effToJson r.attempted), ("stored", listToJson effToJson (puts r.stored)),
+      ("outcome", outcomeToJson r.outcome)])
   | "persist.effects" =>
     let so ← listOf strOfJson (← field j "save_output")
     let c : Cfg := {
